@@ -149,6 +149,19 @@ def pushParent (g : Graph) (minStamp : Int) (cfl : Flags) (acc : FlagMap × List
   else if g.ts p < minStamp then acc
   else (acc.1.set p (pfl.union cfl), (g.ts p, p) :: acc.2)
 
+/-- the flags handed to the parents of a popped commit whose word is `f`:
+`cflags = cstates[cmt] & (_ANC_OF_1|_ANC_OF_2|_DNC)`, plus `_DNC` when `cflags == _ANC_OF_1|_ANC_OF_2` -/
+def cflagsOf (f : Flags) : Flags :=
+  if f.ancMask.isBoth then { f.ancMask with dnc := true } else f.ancMask
+
+/-- loop body once `(dt, c)` has been popped (leaving `rest`) and `cstates[c] = f` has been read -/
+def stepWith (g : Graph) (minStamp : Int) (s : St) (dt : Int) (c : Nat) (rest : List Entry) (f : Flags) : St :=
+  let newCand := f.ancMask.isBoth && !f.lca
+  let fl1 := if newCand then s.fl.set c { f with lca := true } else s.fl
+  let cands1 := if newCand then s.cands ++ [(dt, c)] else s.cands
+  let r := (g.parents c).foldl (pushParent g minStamp (cflagsOf f)) (fl1, rest)
+  { wl := r.2, fl := r.1, cands := cands1 }
+
 /-- one iteration of the `while _has_candidates(...)` loop -/
 def step (g : Graph) (minStamp : Int) (s : St) : Except Fail St :=
   match popMax s.wl with
@@ -156,15 +169,7 @@ def step (g : Graph) (minStamp : Int) (s : St) : Except Fail St :=
   | some ((dt, c), rest) =>
     match s.fl.get c with
     | none => .error .key
-    | some f =>
-      let cfl0 := f.ancMask
-      let both := cfl0.isBoth
-      let newCand := both && !f.lca
-      let fl1 := if newCand then s.fl.set c { f with lca := true } else s.fl
-      let cands1 := if newCand then s.cands ++ [(dt, c)] else s.cands
-      let cfl := if both then { cfl0 with dnc := true } else cfl0
-      let r := (g.parents c).foldl (pushParent g minStamp cfl) (fl1, rest)
-      .ok { wl := r.2, fl := r.1, cands := cands1 }
+    | some f => .ok (stepWith g minStamp s dt c rest f)
 
 def loop (g : Graph) (minStamp : Int) : Nat → St → Except Fail St
   | 0, s => if hasCandidates s then .error .fuel else .ok s
